@@ -10,6 +10,8 @@
 (*  "bdn"  participation-mask object(s) as bitsets: New(nokey | own key),   *)
 (*         SetBit, SetMask, Merge, Clone ; Agg  (aggregate key/signature    *)
 (*         are functions of the bitset; Verify <=> same mask and message)   *)
+(*  "buf"  long-lived scheme objects, one caller-owned message buffer that  *)
+(*         is overwritten in place between Sign / Verify / Recover / Agg    *)
 (*  "cosi" mask with AggregatePublic kept in step ; SignVerify(tamper,      *)
 (*         policy)   accept <=> (V, r, mask) are the participants' and the  *)
 (*         policy is met                                                    *)
@@ -32,7 +34,8 @@ CONSTANTS
     NSSet,      \* masks: numbers of signers
     MaxOps,     \* masks: operations between New and the final step, for <= 4 signers
     MaxOpsBig,  \* masks: the same for more than 4 signers (argument menu instead of all subsets)
-    MaxProbes   \* masks: aggregations (Probe) that may be interleaved with the calls of one behaviour
+    MaxProbes,  \* masks: aggregations (Probe) that may be interleaved with the calls of one behaviour
+    BufLen      \* buffer reuse: every sequence of exactly BufLen calls on long-lived scheme objects (0 = none)
 
 VARIABLES cfg, list, mk, nops, phase, out, hist, md
 vars == <<cfg, list, mk, nops, phase, out, hist, md>>
@@ -365,27 +368,79 @@ NextMasks ==
     \/ (phase = "ops" /\ SignVerify)
 
 (***************************************************************************)
+(* Buffer reuse ("buf"): ONE long-lived bls / tbls / bdn scheme object per   *)
+(* (suite, group) and ONE caller-owned message buffer that the caller        *)
+(* overwrites in place between calls (contents 1 and 2 have the same length, *)
+(* 3 another one; writing an earlier content again restores it).  Every call *)
+(* receives the buffer itself.  cfg = [c = contents now, sc / pc / bc =        *)
+(* contents that were in the buffer when the last signature / the tbls       *)
+(* partials / the bdn signatures were made (0 = none yet)].  Each verdict is *)
+(* a function of the contents AT CALL TIME; what the buffer held before, or  *)
+(* what any earlier call saw, is irrelevant.  Signing is deterministic: the  *)
+(* bytes are those a fresh scheme object produces for the current contents.  *)
+(***************************************************************************)
+BufContents == {1, 2, 3}
+BufCfg(c, sc, pc, bc) == [n |-> 3, t |-> 2, c |-> c, sc |-> sc, pc |-> pc, bc |-> bc]
+
+BufStart ==
+    /\ phase = "start" /\ "buf" \in Modes /\ BufLen > 0
+    /\ md' = MD("buf", 3)
+    /\ cfg' = BufCfg(1, 0, 0, 0)
+    /\ phase' = "buf"
+    /\ hist' = <<[act |-> "BufStart", c |-> 1]>>
+    /\ UNCHANGED <<list, mk, nops, out>>
+
+BufStep(rec, c2) ==
+    /\ phase = "buf" /\ nops < BufLen
+    /\ cfg' = c2
+    /\ nops' = nops + 1
+    /\ hist' = Append(hist, rec)
+    /\ UNCHANGED <<list, mk, phase, out, md>>
+
+Match(made) == IF made = cfg.c THEN "accept" ELSE "reject"
+
+BufWrite(c)  == c # cfg.c /\ BufStep([act |-> "BufWrite", c |-> c], [cfg EXCEPT !.c = c])
+BufSign      == BufStep([act |-> "BufSign", c |-> cfg.c, obs |-> "bytes-of-current-contents"], [cfg EXCEPT !.sc = cfg.c])
+BufVerify    == cfg.sc # 0 /\ BufStep([act |-> "BufVerify", c |-> cfg.c, made |-> cfg.sc, exp |-> Match(cfg.sc)], cfg)
+BufPartials  == BufStep([act |-> "BufPartials", c |-> cfg.c, obs |-> "bytes-of-current-contents"], [cfg EXCEPT !.pc = cfg.c])
+BufRecover   == cfg.pc # 0 /\ BufStep([act |-> "BufRecover", c |-> cfg.c, made |-> cfg.pc,
+                                        exp |-> IF cfg.pc = cfg.c THEN "sig" ELSE "error"], cfg)
+BufBdnSign   == BufStep([act |-> "BufBdnSign", c |-> cfg.c, obs |-> "bytes-of-current-contents"], [cfg EXCEPT !.bc = cfg.c])
+BufBdnVerify == cfg.bc # 0 /\ BufStep([act |-> "BufBdnVerify", c |-> cfg.c, made |-> cfg.bc, exp |-> Match(cfg.bc)], cfg)
+
+NextBuf ==
+    \/ BufStart
+    \/ (phase = "buf" /\ \E c \in BufContents : BufWrite(c))
+    \/ (phase = "buf" /\ (BufSign \/ BufVerify \/ BufPartials \/ BufRecover \/ BufBdnSign \/ BufBdnVerify))
+
+(* a verdict depends on nothing but the contents now and the contents at signing time *)
+BufMeta ==
+    (phase = "buf") =>
+        /\ cfg.c \in BufContents /\ {cfg.sc, cfg.pc, cfg.bc} \subseteq ({0} \cup BufContents)
+        /\ \A made \in BufContents : (Match(made) = "accept") <=> (made = cfg.c)
+
+(***************************************************************************)
 Init ==
     /\ cfg = [n |-> 2, t |-> 2] /\ list = <<>>
     /\ mk = [o \in Objs |-> NoMask]
     /\ md = MD("none", 1)
     /\ nops = 0 /\ phase = "start" /\ out = "none" /\ hist = <<>>
 
-Next == (phase = "start" /\ NextBls) \/ NextTbls \/ NextMasks
+Next == (phase = "start" /\ NextBls) \/ NextTbls \/ NextMasks \/ NextBuf
 
 Spec == Init /\ [][Next]_vars
 
 TypeOK ==
-    /\ phase \in {"start", "collect", "ops", "done"}
+    /\ phase \in {"start", "collect", "ops", "done", "buf"}
     /\ out \in {"none", "accept", "reject", "free", "sig", "error"}
-    /\ nops <= (IF MaxOps > MaxOpsBig THEN MaxOps ELSE MaxOpsBig)
+    /\ nops <= (IF phase = "buf" THEN BufLen ELSE IF MaxOps > MaxOpsBig THEN MaxOps ELSE MaxOpsBig)
     /\ Len(list) <= cfg.n + 2
 
-Meta == BlsMeta /\ TblsMeta /\ BdnMeta /\ CosiMeta /\ MaskMeta
+Meta == BlsMeta /\ TblsMeta /\ BdnMeta /\ CosiMeta /\ MaskMeta /\ BufMeta
 
 (* generators *)
 View == <<cfg, list, mk, nops, phase, out, md>>
 TourView == <<mk, phase, out, md>>                                   \* transition tour over the mask state graph
-Emit == (phase = "done") => PrintT(<<"TRACE", ToJson(hist)>>)
+Emit == (phase = "done" \/ (phase = "buf" /\ nops = BufLen)) => PrintT(<<"TRACE", ToJson(hist)>>)
 EmitEdge == PrintT(<<"EDGE", ToJson(hist')>>)
 =============================================================================
